@@ -542,6 +542,12 @@ def main(chk):
     rule_pickle(chk, cls)
     rule_replicate(chk, cls)
     rule_tag_scans(chk, cls)
+    # align_particles keeps its index array a permutation (rule shared with C16, which relies on it after removals)
+    import importlib.util
+    spec = importlib.util.spec_from_file_location('c16mod', os.path.join(os.path.dirname(os.path.abspath(__file__)), 'c16.py'))
+    c16 = importlib.util.module_from_spec(spec)
+    spec.loader.exec_module(c16)
+    c16.rule_alignment(chk)
     chk.assume('carray methods (resize/remove/c_align_array/copy_values/copy_subset) from the cyarray package behave as documented')
     chk.assume('GPU helper paths (self.gpu...) are out of scope')
     chk.note('__reduce__ does not persist output_property_arrays (a pickled array loses its output list); '
